@@ -226,7 +226,10 @@ def _addr(rng, alpha):
     if r < 0.25:
         name = ""
     elif r < 0.45:
-        name = rng.choice(["Doe, John", "O'Neil", "Dr. A. Smith", "Team (ops)", "a \"q\" b", "J. R. \"Bob\" Dobbs"])
+        name = rng.choice(["Doe, John", "O'Neil", "Dr. A. Smith", "Team (ops)", "a \"q\" b", "J. R. \"Bob\" Dobbs",
+                           # non-ASCII names with address-list specials: formataddr emits them as RFC 2047 encoded words,
+                           # so the comma / angle bracket only exists AFTER decoding (decode-then-split would mangle them)
+                           "M\u00fcller, Hans", "S\u00f8ren <ops>", "\u5f20, \u4f1f", "Jos\u00e9; Mar\u00eda, Jr."])
     else:
         name = " ".join("".join(rng.choice(alpha or "abcdef").upper() if i == 0 else rng.choice(alpha or "abcdef")
                                 for i in range(rng.randint(2, 7))) for _ in range(rng.randint(1, 2)))
@@ -236,7 +239,14 @@ def _addr(rng, alpha):
 
 
 def _fmt_addrs(pairs, charset):
-    return ", ".join(email.utils.formataddr(p, charset=charset if charset != "us-ascii" else "utf-8") for p in pairs)
+    def one(p):
+        cs = charset if charset != "us-ascii" else "utf-8"
+        try:
+            p[0].encode(cs)
+        except (UnicodeEncodeError, LookupError):
+            cs = "utf-8"
+        return email.utils.formataddr(p, charset=cs)
+    return ", ".join(one(p) for p in pairs)
 
 
 class Truth(dict):
